@@ -16,7 +16,6 @@ import stat
 import time
 from collections import defaultdict
 from collections.abc import AsyncIterator
-from copy import copy
 from datetime import datetime
 from email.message import EmailMessage
 from mailbox import FormatError, NoSuchMailboxError, NotEmptyError
@@ -1379,7 +1378,7 @@ class Mailbox:
         #       sequences back in after the pack.
         #
         async with self.mh_sequences_lock:
-            self.set_sequences_in_folder(self.sequences)
+            self.set_sequences_in_folder(self._sequences_for_folder())
             self.mailbox.pack()
             self.msg_keys = [int(x) for x in self.mailbox.iterkeys()]
             self.sequences = self.get_sequences_from_folder()
@@ -1975,10 +1974,11 @@ class Mailbox:
         for seq in seqs:
             self.sequences[seq].add(msg_key)
 
-        # Keep the .mh_sequences up to date.
+        # Keep the .mh_sequences up to date (without losing what the file says
+        # about mail delivered since our last resync).
         #
         async with self.mh_sequences_lock, self.mailbox.lock_folder():
-            self.set_sequences_in_folder(self.sequences)
+            self.set_sequences_in_folder(self._sequences_for_folder())
 
         # if a date_time was supplied then set the mtime on the file to
         # that. We use mtime as our 'internal date' on messages.
@@ -2590,7 +2590,7 @@ class Mailbox:
             #     sequences under lock folder, and update that in parallel with
             #     the above code.
             #
-            self.set_sequences_in_folder(copy(self.sequences))
+            self.set_sequences_in_folder(self._sequences_for_folder())
 
         await self.commit_to_db()
         await self._dispatch_or_pend_notifications(
